@@ -3,6 +3,11 @@
 //! `<input in Gallina syntax>\t<observation in Gallina syntax>\t<tags>`.
 mod rng;
 mod v;
+mod gen;
+mod dump;
+mod build;
+mod world;
+mod c01;
 mod c12;
 
 use rng::Rng;
@@ -31,6 +36,7 @@ fn main() {
     std::panic::set_hook(Box::new(|_| {}));
     let mut rng = Rng::new(seed ^ (prop.bytes().fold(0u64, |a, b| a.wrapping_mul(131) + u64::from(b))));
     let cases: Vec<Case> = match prop {
+        "C01" => c01::cases(&mut rng, count, tier),
         "C12" => c12::cases(&mut rng, count, tier),
         _ => {
             eprintln!("unknown property {prop}");
